@@ -254,6 +254,16 @@ def component_probe(schema):
                     out.append([name, text, t.is_valid(text), canon.canon_data(t.decode(text, validation='lax')[0])])
             except Exception as exc:
                 out.append([name, text, 'raise', type(exc).__name__])
+    # builtin types: their scratch context is the meta-schema's, shared by every schema of the process
+    for local in ('decimal', 'boolean', 'int', 'date', 'QName'):
+        t = schema.meta_schema.maps.types.get('{http://www.w3.org/2001/XMLSchema}' + local) if schema.meta_schema else None
+        if t is None:
+            continue
+        for text in ('1', 'zz', 'true', ''):
+            try:
+                out.append(['xs:' + local, text, t.is_valid(text)])
+            except Exception as exc:
+                out.append(['xs:' + local, text, 'raise', type(exc).__name__])
     for name in sorted(schema.attributes)[:3]:
         a = schema.attributes[name]
         for text in ('1', 'x'):
